@@ -277,6 +277,23 @@ def parseNR (s : List Char) : Option NR :=
     else if 2 ≤ parts.length ∧ parts.length ≤ maxIndices then (parseAll parts).map NR.multi
     else none
 
+def dimValid : Dim → Bool
+  | .none => true
+  | .index _ => true
+  | .range a b => decide (a < b)
+
+def dimIndexOrRange : Dim → Bool
+  | .none => false
+  | d => dimValid d
+
+/-- `NumericRange::is_valid`.  `strict = true` is the current source (a `MultipleRanges` needs 2..=10
+entries, each an index or a range); `false` the pinned one (any number of entries, `None` allowed). -/
+def isValidNR (strict : Bool) : NR → Bool
+  | .one d => dimValid d
+  | .multi ds =>
+    if strict then decide (2 ≤ ds.length ∧ ds.length ≤ maxIndices) && ds.all dimIndexOrRange
+    else ds.all dimValid
+
 /-! ## DateTime (100 ns ticks since 1601-01-01T00:00:00Z) -/
 
 def isLeap (y : Int) : Bool := (y % 4 = 0 && y % 100 ≠ 0) || y % 400 = 0
